@@ -335,6 +335,32 @@ def f26_xattr_first_failure(xcp, d):
         have = []
     return ["exit %d, only %s of three user attributes arrived after one refused fsetxattr" % (p.returncode, have)] if len(have) < 2 else []
 
+def f27_stat_error_absent(xcp, d):
+    """C03/C04/C09: one failing statx of the destination must not be taken for 'nothing there'
+    (`xcp f .` zeroing f; --backup=numbered skipping the backup)"""
+    bad = []
+    w = os.path.join(d, "self"); os.makedirs(w)
+    open(os.path.join(w, "f"), "w").write("precious\n")
+    for k in range(1, 30):       # fail the k-th statx of ./f in turn: whichever one is the guard's
+        open(os.path.join(w, "f"), "w").write("precious\n")
+        subprocess.run(["strace", "-f", "-qq", "-o", "/dev/null", "-e", "trace=statx", "-e", "inject=statx:error=EIO:when=%d" % k,
+                        xcp, "--workers", "1", "f", "."], cwd=w, env=dict(os.environ, RUST_BACKTRACE="0"), capture_output=True, text=True, timeout=60)
+        if open(os.path.join(w, "f")).read() != "precious\n":
+            bad.append("xcp f . with the %d-th statx of ./f failing: source now %r" % (k, open(os.path.join(w, "f")).read()[:12]))
+            break
+    w = os.path.join(d, "bak"); os.makedirs(w)
+    for k in range(1, 30):
+        for n in os.listdir(w):
+            os.remove(os.path.join(w, n))
+        open(os.path.join(w, "src"), "w").write("new\n"); open(os.path.join(w, "f"), "w").write("old\n")
+        p = subprocess.run(["strace", "-f", "-qq", "-o", "/dev/null", "-e", "trace=statx", "-e", "inject=statx:error=EIO:when=%d" % k,
+                            xcp, "--workers", "1", "--backup=numbered", "src", "f"], cwd=w, env=dict(os.environ, RUST_BACKTRACE="0"), capture_output=True, text=True, timeout=60)
+        kept = any(open(os.path.join(w, n)).read() == "old\n" for n in os.listdir(w))
+        if p.returncode == 0 and not kept:
+            bad.append("--backup=numbered with the %d-th statx of f failing: exit 0 and the old version is gone" % k)
+            break
+    return bad
+
 ALL = {"new:create-before-identity-check": f1_self_copy, "parfile:symlink-result-discarded": f2_symlink_result,
        "copy_node:dev-not-rdev": f3_device_number, "parblock:short-copy-not-retried": f5_short_copy,
        "walker:deref-does-not-follow-dir-links": f8_deref_dir_link, "finalise:chown-after-chmod": f9_setid_ownership,
@@ -353,7 +379,8 @@ ALL = {"new:create-before-identity-check": f1_self_copy, "parfile:symlink-result
        "main:dir-onto-file-multi-source": f23_dir_onto_file_multi,
        "backup:number-beyond-u64": f24_backup_number_beyond_u64,
        "parblock:no-extent-map-dense-copy": f25_parblock_tmpfs_sparse,
-       "xattr:first-failure-stops-the-rest": f26_xattr_first_failure}
+       "xattr:first-failure-stops-the-rest": f26_xattr_first_failure,
+       "stat-error-taken-for-absent": f27_stat_error_absent}
 
 def main():
     repo = sys.argv[1]
